@@ -46,6 +46,40 @@ Section Final.
     | Some (secs, esum) => Inter Absorbed n0 vzero (electron :: secs) (binding - esum)
     | None => Inter Absorbed n0 vzero [electron] binding
     end.
+  (** AtomicRelaxation::operator(): the cascade of sampled transitions is abstract
+      (vacancy stack and transition selection are not modelled: Tier B); what is
+      concrete is, per sampled transition, the threshold test against the production
+      cut OF THE EMITTED PARTICLE'S OWN TYPE (Auger electron: electron cut;
+      fluorescence photon: gamma cut), the isotropic direction, and the energy
+      bookkeeping (sum of the emitted energies). *)
+  Record transition := Tr { tr_auger : bool; tr_energy : T }.
+  Fixpoint relax_emit (cut_g cut_e : T) (trs : list transition) : M (list (secondary T) * T) :=
+    match trs with
+    | [] => ret ([], n0)
+    | t :: r =>
+        let cutoff := if tr_auger t then cut_e else cut_g in
+        if cutoff <=? tr_energy t then
+          d <- isotropic ;;
+          '(l, e) <- relax_emit cut_g cut_e r ;;
+          ret (Sec (if tr_auger t then PElectron else PGamma) (tr_energy t) d :: l, tr_energy t + e)
+        else relax_emit cut_g cut_e r
+    end.
+  (** energy of the transitions that were NOT emitted (below their cut) *)
+  Fixpoint relax_suppressed (cut_g cut_e : T) (trs : list transition) : T :=
+    match trs with
+    | [] => n0
+    | t :: r =>
+        let cutoff := if tr_auger t then cut_e else cut_g in
+        if cutoff <=? tr_energy t then relax_suppressed cut_g cut_e r
+        else tr_energy t + relax_suppressed cut_g cut_e r
+    end.
+  Definition tr_energy_sum (trs : list transition) : T := nsum (map tr_energy trs).
+  (** Livermore PE with relaxation: photoelectron + relaxation products *)
+  Definition livermore_relax (e_inc binding : T) (edir : vec3 T) (cut_g cut_e : T) (trs : list transition)
+    : M (interaction T) :=
+    '(secs, esum) <- relax_emit cut_g cut_e trs ;;
+    ret (livermore_final e_inc binding edir (Some (secs, esum))).
+
   (** no shell can be ionised: everything deposited locally *)
   Definition livermore_no_shell (e_inc : T) : interaction T := Inter Absorbed n0 vzero [] e_inc.
 End Final.
